@@ -40,11 +40,36 @@ def _copy_root(body, l, depth=0):
 
 def classify(facts, fn, body, header, blocks, ev):
     """-> ('iter'|'counter'|'unknown', detail)"""
-    # (I) iterator-driven
+    # (I) iterator-driven: the `None` arm of a `next()` call made in this loop leaves *this* loop (a nested `for` inside a
+    # `while` does not make the `while` iterator-bounded), and the iterator was created outside the loop
     for bi in blocks:
         t = body.blocks[bi]["t"]
-        if t[0] == "call" and "Iterator" in t[1]["f"] and t[1]["f"].endswith("::next"):
-            return "iter", t[1]["f"]
+        if t[0] == "call" and "Iterator" in t[1]["f"] and t[1]["f"].endswith("::next") and t[3] and len(t[3]) == 1:
+            res = t[3][0]
+            # the switch on the discriminant of the result
+            for sb in blocks:
+                st = body.blocks[sb]["t"]
+                if st[0] != "switch":
+                    continue
+                dl = operand_local(st[1])
+                dd = body.single_def(dl) if dl is not None else None
+                if not (dd and dd[2] == "A" and dd[3][2][0] == "discr" and dd[3][2][1][0] == res):
+                    continue
+                targets = [b_ for _v, b_ in st[2]] + [st[3]]
+                if any(x not in blocks for x in targets):
+                    # iterator object: first argument of next() is `&mut it`; `it` must not be (re)assigned in the loop
+                    it = operand_local(t[2][0]) if t[2] else None
+                    root = it
+                    for _ in range(6):
+                        di = body.single_def(root) if root is not None else None
+                        if di and di[2] == "A" and di[3][2][0] in ("ref", "rawptr"):
+                            root = di[3][2][2][0]      # (re)borrow: follow to the borrowed local
+                        elif di and di[2] == "A" and di[3][2][0] == "use" and di[3][2][1][0] in ("cp", "mv") and di[0] in blocks:
+                            root = di[3][2][1][1][0]
+                        else:
+                            break
+                    if root is None or not any(d_[0] in blocks for d_ in body.defs().get(root, [])):
+                        return "iter", t[1]["f"]
     # exits: switches with a target outside the loop
     defs = body.defs()
     inloop_defs = {}
@@ -82,8 +107,9 @@ def classify(facts, fn, body, header, blocks, ev):
                     continue
             up = o in ("Lt", "Le", "Ne")
             ok = True
+            broot = _copy_root(body, bl) if bl is not None else None
             for dd in inloop_defs[c]:
-                if not _is_step(body, ev, c, dd, up):
+                if not _is_step(body, ev, c, dd, up, broot, bi, o):
                     ok = False
                     break
             if ok and _every_cycle_steps(body, header, blocks, [dd[0] for dd in inloop_defs[c]]):
@@ -91,7 +117,41 @@ def classify(facts, fn, body, header, blocks, ev):
     return "unknown", None
 
 
-def _is_step(body, ev, c, d, up):
+def _positive(body, ev, k, at, c, broot, guard_bi, o, depth=0):
+    """k >= 1 at block `at`: by intervals, or because every definition of k is a constant >= 1 or `B - c` under the
+    loop guard `c < B` (the remaining distance), e.g. `let blen = if n - i > 200 { 200 } else { n - i }`."""
+    iv = ev.at_block(at).op_ival(k, at)
+    if iv is not None and iv[0] >= 1:
+        return True
+    l = operand_local(k)
+    if l is None or depth > 4 or broot is None or o != "Lt":
+        return False
+    defs = body.defs().get(l, [])
+    if not defs:
+        return False
+    for d in defs:
+        if d[2] != "A":
+            return False
+        rv = d[3][2]
+        if rv[0] == "use":
+            cv = const_int(rv[1])
+            if cv is not None:
+                if cv < 1:
+                    return False
+                continue
+            if not _positive(body, ev, rv[1], d[0], c, broot, guard_bi, o, depth + 1):
+                return False
+            continue
+        if rv[0] == "bin" and rv[1] in ("Sub", "SubUnchecked"):
+            x, y = operand_local(rv[2]), operand_local(rv[3])
+            if x is not None and y is not None and _copy_root(body, x) == broot and _copy_root(body, y) == c \
+                    and body.dominates(guard_bi, d[0]) and d[0] != guard_bi:
+                continue
+        return False
+    return True
+
+
+def _is_step(body, ev, c, d, up, broot=None, guard_bi=None, o=None):
     """d defines c as c +/- k with k >= 1."""
     if d[2] == "A":
         rv = d[3][2]
@@ -102,7 +162,7 @@ def _is_step(body, ev, c, d, up):
             dd = body.single_def(src)
             if not dd:
                 return False
-            return _is_step(body, ev, c, dd, up)
+            return _is_step(body, ev, c, dd, up, broot, guard_bi, o)
         if rv[0] == "bin" and rv[1] in (("Add", "AddUnchecked") if up else ("Sub", "SubUnchecked")):
             a, k = rv[2], rv[3]
             la = operand_local(a)
@@ -111,8 +171,7 @@ def _is_step(body, ev, c, d, up):
                     a, k = k, a
                 else:
                     return False
-            iv = ev.at_block(d[0]).op_ival(k, d[0])
-            return iv is not None and iv[0] >= 1
+            return _positive(body, ev, k, d[0], c, broot, guard_bi, o)
         return False
     if d[2] == "call":
         t = d[3]
